@@ -161,6 +161,12 @@ def classify(h):
     from ZConfig.components.logger import loghandler
     if isinstance(h, logging.NullHandler):
         return "null"
+    if isinstance(h, logging.handlers.SysLogHandler):
+        return "syslog"
+    if isinstance(h, logging.handlers.HTTPHandler):
+        return "http"
+    if isinstance(h, logging.handlers.SMTPHandler):
+        return "smtp"
     if isinstance(h, logging.handlers.TimedRotatingFileHandler):
         return "timed" if isinstance(h, loghandler.TimedRotatingFileHandler) else "timed(not ZConfig's)"
     if isinstance(h, logging.handlers.RotatingFileHandler):
@@ -189,9 +195,14 @@ def configs(rng, n_random):
         [sec("logger", "zcv.a", 1, True, hs(("timed", 50, False))), sec("logger", "zcv.b", 15, False, hs(("file", 0, True))),
          sec("eventlog", "", 50, True, [])],
         [sec("logger", "", 25, False, hs(("file", 7, False)))],
+        # handler sections without a file: one handler each, in order, never in the reopen registry
+        [sec("logger", "zcv.a", 10, True, hs(("syslog", 30, False), ("file", 0, False), ("http", 20, False),
+                                             ("smtp", 40, False)))],
+        [sec("eventlog", "", 20, True, hs(("smtp", 50, False), ("rot", 10, True))),
+         sec("logger", "zcv.b", 5, False, hs(("http", 0, False), ("syslog", 15, False)))],
     ]
-    classes = ["stream", "file", "rot", "timed"]
-    while len(out) < 6 + n_random:
+    classes = ["stream", "file", "rot", "timed", "syslog", "http", "smtp"]
+    while len(out) < 8 + n_random:
         n = rng.randint(1, 3)
         c = []
         for i in range(n):
@@ -217,6 +228,19 @@ def config_text(cfg, root):
         lines.append("  level %d" % s["level"])
         for h in s["hs"]:
             k += 1
+            if h["cls"] in ("syslog", "http", "smtp"):
+                tag = {"syslog": "syslog", "http": "http-logger", "smtp": "email-notifier"}[h["cls"]]
+                lines.append("  <%s>" % tag)
+                if h["cls"] == "syslog":
+                    lines += ["    facility local%d" % (k % 8), "    address localhost:%d" % (5140 + k)]
+                elif h["cls"] == "http":
+                    lines += ["    url http://localhost:%d/log%d" % (8000 + k, k), "    method %s" % ("POST" if k % 2 else "GET")]
+                else:
+                    lines += ["    from zcv%d@example.invalid" % k, "    to a%d@example.invalid" % k,
+                              "    to b%d@example.invalid" % k, "    subject note %d" % k]
+                lines.append("    level %d" % h["level"])
+                lines.append("  </%s>" % tag)
+                continue
             lines.append("  <logfile>")
             if h["cls"] == "stream":
                 lines.append("    path %s" % ("STDOUT" if k % 2 else "STDERR"))
